@@ -705,13 +705,19 @@ func TestProp(t *testing.T) {
 	t.Run("seq", propSeq.Check)
 	t.Run("cut", propCut.Check)
 	t.Run("pipe", propPipe.Check)
+	t.Run("pair", propPair.Check)
 }
-func TestRegress(t *testing.T) { propSeq.Regress(t); propCut.Regress(t); propPipe.Regress(t) }
+func TestRegress(t *testing.T) {
+	propSeq.Regress(t)
+	propCut.Regress(t)
+	propPipe.Regress(t)
+	propPair.Regress(t)
+}
 func TestReplay(t *testing.T) {
 	if *hx.ReplayPath == "" {
 		t.Skip("no -replay")
 	}
-	if !propSeq.Replay(t, *hx.ReplayPath) && !propCut.Replay(t, *hx.ReplayPath) && !propPipe.Replay(t, *hx.ReplayPath) {
+	if !propSeq.Replay(t, *hx.ReplayPath) && !propCut.Replay(t, *hx.ReplayPath) && !propPipe.Replay(t, *hx.ReplayPath) && !propPair.Replay(t, *hx.ReplayPath) {
 		t.Fatalf("no prop matches %s", *hx.ReplayPath)
 	}
 }
